@@ -507,7 +507,7 @@ func (w *world) mseq(out *c.Out, seq int, r *c.Rng) {
 	}
 	params.ClaimEnd = m.claimEnd
 	must(params.Validate())
-	ik.SetParams(ctx, params)
+	kapp.SetParams(w.tApp, ctx, "incentive", &params, func() { ik.SetParams(ctx, params) })
 
 	m.ms = msgServers{swap: swapkeeper.NewMsgServerImpl(w.tApp.GetSwapKeeper()), hard: hardkeeper.NewMsgServerImpl(hk), cdp: cdpkeeper.NewMsgServerImpl(ck),
 		staking: stakingkeeper.NewMsgServerImpl(w.tApp.GetStakingKeeper()), earn: earnkeeper.NewMsgServerImpl(w.tApp.GetEarnKeeper())}
